@@ -142,10 +142,15 @@ def random_program(rng):
                 lines.append("rule rm { if e: E; match e { Ca() => {} Cb(%s, %s) => { then %s(%s); } } }" % (pats[0], pats[1], p, keep))
     if not any(l.startswith("rule") for l in lines):
         return None
+    # size bound (the lemma encodings grow with the number of table cells and of rule instances): at most 4 relations
+    # (constructors included) with a total arity of at most 9
+    ars = [len(a) for a in preds.values()] + [len(a) + 1 for a, _ in funcs.values()] + ([len(a) + 1 for _, a in enum[1]] if enum else [])
+    if len(ars) > 4 or sum(ars) > 9:
+        return None
     return "\n".join(lines) + "\n"
 
 
 def random_programs(seed, n):
     rng = random.Random(seed)
-    out = [random_program(rng) for _ in range(10 * n)]
+    out = [random_program(rng) for _ in range(30 * n)]
     return [p for p in out if p is not None]
